@@ -7,47 +7,13 @@ Require Import BFL.C13_Model.
 Import ListNotations.
 Local Open Scope bool_scope.
 
-(* StateModel::skip called exogenous_model() unconditionally *)
-Definition sm_skip_old (w : name) (b : bool) (f : flags) : res * flags :=
-  match w with
-  | NState => (Ok true, set_state b f)
-  | NExogenous =>
-      match exo_model f with
-      | None => (Throws, f)
-      | Some e => (Ok true, set_exo (snd (exo_skip w b e)) f)
-      end
-  | _ => (Ok false, f)
-  end.
-
-Definition pred_skip_old (w : name) (b : bool) (f : flags) : res * flags :=
-  match w with
-  | NPrediction =>
-      bind (sm_skip_old NState b (set_pred b f)) (fun _ f2 =>
-      bind (sm_skip_old NExogenous b f2) (fun _ f3 => (Ok true, f3)))
-  | NState =>
-      bind (sm_skip_old NState b f) (fun _ f1 =>
-        match exo_model f1 with
-        | None => (Throws, f1)
-        | Some e => (Ok true, set_pred (f_state f1 && e) f1)
-        end)
-  | NExogenous =>
-      bind (sm_skip_old NExogenous b f) (fun _ f1 =>
-        match exo_model f1 with
-        | None => (Throws, f1)
-        | Some e => (Ok true, set_pred (f_state f1 && e) f1)
-        end)
-  | _ => (Ok false, f)
-  end.
-
-Definition filter_skip_old (w : name) (b : bool) (f : flags) : res * flags :=
-  match w with
-  | NPrediction | NState | NExogenous => pred_skip_old w b f
-  | NCorrection => corr_skip b f
-  | NAll =>
-      bind (pred_skip_old NPrediction b f) (fun r1 f1 =>
-      bind (corr_skip b f1) (fun r2 f2 => (Ok (true && r1 && r2), f2)))
-  | NOther => (Ok false, f)
-  end.
+(* The snapshot had none of the three tests of have_exogenous_model() in front of the partial
+   accessor exogenous_model(): it is the instance "no guards" of the very definitions the
+   property theorems are about (C13_Model.filter_skip_g). *)
+Definition guards_snapshot := mkGuards false false false.
+Definition sm_skip_old := sm_skip_g guards_snapshot.
+Definition pred_skip_old := pred_skip_g guards_snapshot.
+Definition filter_skip_old := filter_skip_g guards_snapshot.
 
 (* without exogenous model every prediction-related command threw, leaving the
    flags half updated ("prediction on": prediction and state flags set) *)
@@ -61,6 +27,21 @@ Proof. repeat split. Qed.
 (* with an exogenous model the old and the repaired dispatch agree *)
 Lemma old_agrees_with_model w b f e : f_exo f = Some e -> filter_skip_old w b f = filter_skip w b f.
 Proof. destruct f as [p i s x c]; simpl; intros ->; destruct w; reflexivity. Qed.
+
+(* the snapshot transcribed literally (StateModel::skip and the two branches of Prediction::skip
+   calling exogenous_model() unconditionally) is that instance *)
+Lemma old_instance_unfolded w b f :
+  sm_skip_old w b f =
+  match w with
+  | NState => (Ok true, set_state b f)
+  | NExogenous =>
+      match exo_model f with
+      | None => (Throws, f)
+      | Some e => (Ok true, set_exo (snd (exo_skip w b e)) f)
+      end
+  | _ => (Ok false, f)
+  end.
+Proof. destruct w; reflexivity. Qed.
 
 (* ---- DrawParticles(state_model, exogenous_model) as it was before
    "fix: DrawParticles attaches the exogenous model it is constructed with": the constructor only stored the
